@@ -90,6 +90,40 @@ pub fn run(rep: &mut Report, thorough: bool) {
             });
         }
         }
+        // IPv4 options whose BYTES look like a transport header (a SYN / a UDP header / an echo with
+        // other ports and identifiers): the reply mirrors the real transport header behind them
+        {
+            let f = flow4(12345, 80);
+            let (c4, s4) = match (f.cip, f.sip) {
+                (Ip::V4(a), Ip::V4(b)) => (a, b),
+                _ => unreachable!(),
+            };
+            let decoys: Vec<Vec<u8>> = vec![
+                TcpSeg::new(5376, 17428, 9, 0, F_SYN, b"").bytes(&f.cip, &f.sip),
+                [&[0x44u8, 0x14, 0x15, 0x00][..], &[0, 0, 0, 1, 0, 0, 0, 2, 0x50, 0x02, 0, 0, 0, 0, 0, 3][..]].concat(),
+                [&[0x94u8, 0x04, 0x00, 0x00][..]].concat(),
+                [&udp(&f.cip, &f.sip, 7, 9, b"")[..8], &[1, 1, 1, 0][..]].concat(),
+                [&icmp4(8, 0, &[0xde, 0xad, 0, 1])[..], &[1, 1, 1, 0][..]].concat(),
+                vec![0x07, 0x07, 0x04, 0, 0, 0, 0, 0],
+            ];
+            let nd = decoys.len() as u64;
+            sweep_frames(rep, &cfg, &format!("ip4-option-decoys-{}", tag), "6 IPv4 option areas whose bytes read as a TCP / UDP / ICMP header or as legal timestamp / router-alert / record-route options x {SYN, SYN with ack 0x50020000, UDP STUN, echo}", nd * 4, |i| {
+                let d = unrank(i, &[nd, 4]);
+                let mut opts = decoys[d[0] as usize].clone();
+                while opts.len() % 4 != 0 {
+                    opts.push(0);
+                }
+                opts.truncate(40);
+                let ihl = 5 + (opts.len() / 4) as u8;
+                let (proto, l4) = match d[1] {
+                    0 => (P_TCP, TcpSeg::new(12345, 80, 7, 0, F_SYN, b"").bytes(&f.cip, &f.sip)),
+                    1 => (P_TCP, TcpSeg::new(12345, 80, 7, 0x50020000, F_SYN, b"").bytes(&f.cip, &f.sip)),
+                    2 => (P_UDP, udp(&f.cip, &f.sip, 12345, 3478, &stun_magic(&[], &ID12))),
+                    _ => (P_ICMP, icmp4(8, 0, &[0x12, 0x34, 0, 1, b'o', b'k'])),
+                };
+                eth(&MAC_SRV, &MAC_CLI, ET_IP4, &ipv4_raw(c4, s4, proto, &l4, ihl, None, &opts, 64, 0x4000, 7))
+            });
+        }
         // depth-2 histories: nothing learned from one frame (ARP sender, ND option, an earlier
         // frame's MAC) may redirect the reply to a later frame
         crate::props::pairs::pair_histories(rep, &cfg, &format!("pair-histories-{}", tag), &crate::props::pairs::l2l4_frames());
